@@ -42,6 +42,9 @@ pub struct ConnInfo {
     pub had_error: bool,
     /// write returned Ok(0) at least once (transport contract violation)
     pub write_zero: bool,
+    /// the outbound stream of this connection could be parsed to its end: no framing error, no
+    /// cancelled QoS 0 publish / cancelled disconnect() that left bytes behind, no Ok(0) write
+    pub stream_ok: bool,
 }
 
 pub struct Trace<'a> {
@@ -94,6 +97,7 @@ impl<'a> Trace<'a> {
                     qos0_cancel_at: None,
                     had_error: c.faulted,
                     write_zero: false,
+                    stream_ok: true,
                 }
             })
             .collect();
@@ -125,6 +129,19 @@ impl<'a> Trace<'a> {
                 Outcome::Err(ErrRepr::Transport(_) | ErrRepr::Disconnected | ErrRepr::InvalidPacket | ErrRepr::WriteZero | ErrRepr::PacketTooLarge)
             ) {
                 conns[c].had_error = true;
+            }
+        }
+        for (i, op) in log.ops.iter().enumerate() {
+            let _ = i;
+            if let Some(c) = op.conn {
+                if op.kind == "disconnect" && op.outcome == Outcome::Cancelled && op.out_after > op.out_before {
+                    conns[c].stream_ok = false;
+                }
+            }
+        }
+        for c in conns.iter_mut() {
+            if w.conns[c.idx].out.error.is_some() || c.write_zero || c.qos0_cancel_at.is_some() {
+                c.stream_ok = false;
             }
         }
         let mut epoch_at = Vec::with_capacity(w.events.len() + 1);
